@@ -187,6 +187,10 @@ def templates(horizon=40):
                  tags=("template", "cells")),
             Spec("tpl/soft_cuboid_sparse", os.path.join(TEMPLATE_DIR, "soft_cuboid_sparse.ini"), horizon=60,
                  tags=("template", "cells")),
+            # the smallest periodic grid: two cells per side (the upper cell's lower boundary is L/2, the distance to the
+            # next boundary is measured through the periodic face)
+            Spec("tpl/soft_cuboid_sparse@2cells", os.path.join(TEMPLATE_DIR, "soft_cuboid_sparse.ini"), horizon=40,
+                 overrides={("CuboidPeriodicCells", "cells_per_side"): "2, 2, 2"}, tags=("template", "cells")),
             # every unit in the last cell row of every direction: wraps through the periodic faces come first
             Spec("tpl/soft_cuboid_sparse+top", os.path.join(TEMPLATE_DIR, "soft_cuboid_sparse.ini"), horizon=60,
                  start=[([1.15, 0.93, 1.05], None), ([0.5, 0.97, 1.0], None), ([1.1, 0.4, 0.95], None)],
